@@ -9,6 +9,8 @@ frames of the legal packets that follow must be exactly the sender's units
 import os, sys, importlib.util
 sys.path.insert(0, os.path.join(os.path.dirname(os.path.abspath(__file__)), "..", "bin"))
 import vlib
+sys.path.insert(0, os.path.dirname(os.path.abspath(__file__)))
+import trgen as TR
 
 _spec = importlib.util.spec_from_file_location("chk_c06_gen", os.path.join(os.path.dirname(os.path.abspath(__file__)), "c06.py"))
 c06 = importlib.util.module_from_spec(_spec)
@@ -350,6 +352,62 @@ def run(ck):
         ck.stream("isolation_unpinned", [[0, [forged]]], None, "iso", "C07_iso_ok", nontrivial=lambda c: True, compare=False,
                   sig=lambda c, e, o: "hls-stall-after-clock-rebase" if vlib.vparse(o) == [[0, 1, 0, 1, 1]] else "contain-isolation-unpinned",
                   sample=1, timeout=300)
+        # ---- real viewers of every transport while hostile-but-framed packets are published ----------
+        def tr_case(kinds, with_faults):
+            ssrc = bytes(rng.randrange(256) for _ in range(4))
+            seq = [100]
+            def media(ch, payload):
+                seq[0] += 1
+                return [ch, TR.rtp_header(96 if ch == 0 else 97, seq[0], 3600 * seq[0], ssrc) + payload]
+            def sized(ch, total):                       # an RTP packet of exactly `total` bytes (>= 12)
+                body = max(0, total - 12)
+                pl = (bytes([0x41]) + TR.blob(rng, body - 1)) if body else b""
+                if ch == 2 and body >= 4:
+                    pl = bytes([0, 16, ((body - 4) >> 5) & 255, ((body - 4) << 3) & 255]) + TR.blob(rng, body - 4)
+                return media(ch, pl)
+            pk = [media(0, TR.SPS), media(0, TR.PPS), media(0, bytes([0x65]) + TR.blob(rng, 40))]
+            extremes = [12, 13, 1400, 1460, 1500, 8192, 65507, 65508, 65535]
+            rtcp_sizes = [0, 1, 12, 28, 1500, 65507, 65508, 65535]
+            if TR.MCAST in kinds:     # the harness tells its own multicast datagrams from foreign traffic by the SSRC
+                rtcp_sizes = [n for n in rtcp_sizes if n >= 8]
+            body = []
+            for total in rng.sample(extremes, 5) + [65508, 65535, 65507]:
+                body.append(sized(rng.choice([0, 0, 2]), total))
+            for n in rng.sample(rtcp_sizes, 4) + [65508]:
+                body.append([rng.choice([1, 3]), (bytes([0x80, 200, 0, 6]) + ssrc + TR.blob(rng, max(0, n - 8)))[:n]])
+
+            if with_faults:
+                for pl in rng.sample(bad_payloads(rng, H264, bytes([0x41, 1, 2, 3, 4, 5, 6, 7])), 6):
+                    body.append(media(0, pl))
+                for pl in rng.sample(bad_payloads(rng, AAC, bytes([0, 16, 0, 16, 1, 2])), 3):
+                    body.append(media(2, pl))
+            rng.shuffle(body)
+            good = [media(0, bytes([0x41]) + TR.blob(rng, 30)), media(2, bytes([0, 16, 0, 40, 1, 2, 3, 4, 5])),
+                    media(0, bytes([0x65]) + TR.blob(rng, 60)), media(0, bytes([0x41]) + TR.blob(rng, 20))]
+            # fill levels of the sessions' buffered.Conn (128 KiB): a burst of frames that ends on / next to the limit
+            # (back to back, so that the rate limiter keeps them in the buffer); not with datagram viewers (socket buffers)
+            burst = []
+            if not any(k in (TR.UDP, TR.MCAST) for k in kinds):
+                for total in rng.choice([[65532, 65532, 40], [65535, 65529, 100], [65531, 65535, 12], [32768, 32768, 32768, 32756, 500], [65535, 65535, 65535]]):
+                    burst.append(sized(0, total))
+            pk = pk + body + burst + good
+            clients = []
+            for k in kinds:
+                chmap = [0, 1, 2, 3] if k in (TR.HTTPFLV, TR.WSFLV) or rng.random() < 0.6 else TR.gen_chmap(rng, k)
+                lim = 65507 if k in (TR.UDP, TR.MCAST) else 65535
+                deliv = [i for i, p in enumerate(pk) if len(p[1]) <= lim]
+                clients.append([k, chmap, deliv])
+            nb = len(pk) - len(burst) - len(good)
+            events = [[1, i] for i in range(len(kinds))] + [[0, 1] for _ in range(nb)] + ([[0, len(burst)]] if burst else []) + \
+                     [[0, 1] for _ in good] + [[3]]
+            return [1, pk, clients, events, 1]
+        trc = []
+        sets = [[TR.TCP, TR.UDP, TR.WSRTSP, TR.WSP, TR.WSFLV], [TR.UDP, TR.MCAST, TR.TCP], [TR.TCP, TR.WSRTSP, TR.WSP, TR.WSFLV], [TR.UDP, TR.UDP, TR.WSP], [TR.TCP, TR.TCP, TR.WSRTSP]]
+        for i in range(24 if T else 5):
+            trc.append(tr_case(sets[i % len(sets)], with_faults=(i % 2 == 0)))
+        kind("transport case (real viewers, size extremes)", len(trc))
+        ck.stream("transports", trc, None, "C07_transports", "C07_tr_ok", nontrivial=lambda c: len(c[2]) >= 2, compare=False,
+                  sig=lambda c, e, o: "contain-transport", sample=1, timeout=1500)
     except vlib.Broken as b:
         ck.broken.append(b)
     ck.extra["fault_kinds"] = kinds
